@@ -1,12 +1,126 @@
-//! Kani harnesses compiled inside the crate as a child module (sees private items).
+//! Kani harnesses compiled inside `saphyr::yaml_owned` as a child module (sees private items).
+//! C20: the hash recomputed for a `&str` probe equals the hash of the stored string key for every
+//! hasher (hash-trace equality), and the lookup predicate finds exactly resolved-string keys.
 #![allow(dead_code, unused_imports, clippy::all)]
 use super::*;
+use std::hash::{Hash, Hasher};
 
 #[path = "/verif/kani/common/sym.rs"]
 pub mod sym;
+#[path = "/verif/kani/common/rec_hasher.rs"]
+pub mod rec_hasher;
+use rec_hasher::Rec;
 
 #[cfg(test)]
 mod playback {
     use super::*;
     include!("/verif/.work/playback/yaml_owned.rs");
+}
+
+const KEY_ALPHABET: [u8; 12] = [b'a', b'b', b'1', b'0', b'x', b'~', b'.', b'-', b't', b'r', b'u', b'e'];
+
+fn sym_key<const N: usize>(buf: &mut [u8; N]) -> usize {
+    let n: usize = kani::any();
+    kani::assume(n <= N);
+    let mut i = 0;
+    while i < N {
+        let k: u8 = kani::any();
+        kani::assume((k as usize) < KEY_ALPHABET.len());
+        buf[i] = KEY_ALPHABET[k as usize];
+        i += 1;
+    }
+    n
+}
+
+/// Hash-trace equality: `hash_str_as_yaml_string(k, h)` writes to `h` exactly what hashing the
+/// stored key `Yaml::Value(Scalar::String(k))` writes, borrowed or owned.
+#[kani::proof]
+#[kani::unwind(50)]
+pub fn c20_hash_trace_yaml_owned() {
+    let mut buf = [0u8; 4];
+    let n = sym_key(&mut buf);
+    sym::note_bytes("key", &buf[..n]);
+    let k = unsafe { std::str::from_utf8_unchecked(&buf[..n]) };
+    let mut probe = Rec::new();
+    let _ = hash_str_as_yaml_string(k, &mut probe);
+    let stored_b = YamlOwned::Value(ScalarOwned::String(String::from(k)));
+    let mut hb = Rec::new();
+    stored_b.hash(&mut hb);
+    // the borrowed node type with the same text must hash like the owned one ("whether their strings are borrowed or owned")
+    let stored_o = crate::Yaml::Value(crate::Scalar::String(std::borrow::Cow::Borrowed(k)));
+    let mut ho = Rec::new();
+    stored_o.hash(&mut ho);
+    assert!(hb.same(&ho), "C20: borrowed and owned string nodes hash differently");
+    assert!(probe.same(&hb), "C20: hash recomputed for a str probe differs from the hash of the stored string key");
+    kani::cover!(n == 4, "must: four character key reached");
+    std::mem::forget(stored_b);
+    std::mem::forget(stored_o);
+}
+
+fn sym_style() -> ScalarStyle {
+    let k: u8 = kani::any();
+    kani::assume(k < 3);
+    match k {
+        0 => ScalarStyle::Plain,
+        1 => ScalarStyle::DoubleQuoted,
+        _ => ScalarStyle::Literal,
+    }
+}
+
+/// An arbitrary small candidate key node whose text (if any) is `s`.
+fn sym_node(s: &str) -> (YamlOwned, u8) {
+    let v: u8 = kani::any();
+    kani::assume(v < 9);
+    let node = match v {
+        0 => YamlOwned::Value(ScalarOwned::String(String::from(s))),
+        1 => YamlOwned::Value(ScalarOwned::String(String::from(s))),
+        2 => YamlOwned::Value(ScalarOwned::Integer(kani::any())),
+        3 => YamlOwned::Value(ScalarOwned::Null),
+        4 => YamlOwned::Value(ScalarOwned::Boolean(kani::any())),
+        5 => YamlOwned::Representation(String::from(s), sym_style(), None),
+        6 => YamlOwned::BadValue,
+        7 => YamlOwned::Alias(kani::any()),
+        _ => YamlOwned::Sequence(Vec::new()),
+    };
+    (node, v)
+}
+
+/// Predicate equivalence: the closure used by as_mapping_get / contains_mapping_key / Index<&str>
+/// (`k.as_str().is_some_and(|s| s == key)`) accepts a candidate key exactly when the candidate
+/// equals the explicitly built string node - i.e. exactly resolved-string keys equal to `key`.
+#[kani::proof]
+#[kani::unwind(8)]
+pub fn c20_predicate_yaml_owned() {
+    let mut kb = [0u8; 3];
+    let kn = sym_key(&mut kb);
+    let mut cb = [0u8; 3];
+    let cn = sym_key(&mut cb);
+    sym::note_bytes("probe", &kb[..kn]);
+    sym::note_bytes("candidate_text", &cb[..cn]);
+    let key = unsafe { std::str::from_utf8_unchecked(&kb[..kn]) };
+    let ctext = unsafe { std::str::from_utf8_unchecked(&cb[..cn]) };
+    let (cand, v) = sym_node(ctext);
+    if sym::playback() {
+        eprintln!("VERIF-NOTE candidate_variant={}", v);
+    }
+    let pred = cand.as_str().is_some_and(|s| s == key);
+    let needle = YamlOwned::Value(ScalarOwned::String(String::from(key)));
+    let eq = cand == needle;
+    assert!(pred == eq, "C20: str lookup predicate and node equality disagree");
+    let is_string_key = v <= 1 && cn == kn && {
+        let mut same = true;
+        let mut i = 0;
+        while i < 3 {
+            if i < kn && kb[i] != cb[i] {
+                same = false;
+            }
+            i += 1;
+        }
+        same
+    };
+    assert!(pred == is_string_key, "C20: lookup finds something other than a resolved string key equal to the probe");
+    kani::cover!(pred, "must: a matching key reached");
+    kani::cover!(!pred && v == 5, "must: representation candidate reached");
+    std::mem::forget(cand);
+    std::mem::forget(needle);
 }
